@@ -20,7 +20,8 @@ TIERS = {
     "quick": {"runs": 12000, "wall_cap": 120, "timeout": 60, "dups": 16},
     "thorough": {"runs": 300000, "wall_cap": 1700, "timeout": 60, "dups": 64},
 }
-RULE = ("Each run: a simulated writer lays a seeded sequence (N 1-300) out on SimFS (optional '>' header, line length 1-80 / ragged / "
+RULE = ("Each run is a history of 1-4 files in one process (new content at a fresh or an already used path, or a second read of a file already on the disk; "
+        "4% of runs start with a file larger than the 8 KiB I/O buffer). Per file: a simulated writer lays a seeded sequence (N 1-300) out on SimFS (optional '>' header, line length 1-80 / ragged / "
         "10-residue groups with position numbers, blank and space-only lines, LF or CRLF, with/without final newline, optional final '*'), "
         "then optionally crashes mid-write (torn file) or applies one corruption (second header; second '*'; non-final '*'; one foreign "
         "character: other letters, lower case, punctuation, non-whitespace control bytes, invalid UTF-8). The reader calls "
@@ -36,7 +37,7 @@ ASSUMPTIONS = ["not generated because the statement is silent: tabs / other non-
                "files reducing to an empty sequence, a first header appearing after sequence lines (the reference refuses to judge these: DISCARDED)",
                "lower-case letters count as foreign characters (they are today)",
                "open handles after a call are counted as a probe, not a verdict (the statement does not mention handles)"]
-PROBES = ["torn_file", "torn_inside_header", "crlf", "short_reads_1_byte", "chunk_splits_crlf", "eio_fired_before_eof", "eio_scheduled_past_eof",
+PROBES = ["later_file_in_same_process", "same_file_read_again", "path_rewritten_with_new_content", "file_larger_than_io_buffer", "torn_file", "torn_inside_header", "crlf", "short_reads_1_byte", "chunk_splits_crlf", "eio_fired_before_eof", "eio_scheduled_past_eof",
           "open_error", "corrupt_second_header", "corrupt_second_star", "corrupt_nonfinal_star", "corrupt_foreign_char",
           "corrupt_invalid_utf8", "valid_with_star", "numbered_layout", "panel_compared", "permutants_constructor",
           "no_final_newline", "reference_rejects", "reference_accepts"]
@@ -194,9 +195,11 @@ def corrupt(rnd, text, meta):
     return text.encode("utf-8")
 
 
-def gen_plan(streams, tier):
-    rnd = streams.stream("plan")
-    n = rnd.choice((rnd.randrange(1, 6), rnd.randrange(1, 40), rnd.randrange(20, 120), rnd.randrange(60, 301)))
+def gen_step(rnd, frnd, big=False):
+    if big:
+        n = rnd.randrange(2000, 12000)
+    else:
+        n = rnd.choice((rnd.randrange(1, 6), rnd.randrange(1, 40), rnd.randrange(20, 120), rnd.randrange(60, 301)))
     seq = gen_seq(rnd, n, rnd.choice(("uniform", "idp", "uniform", "lowcomplexity")))
     meta = {}
     text = lay_out(rnd, seq, meta)
@@ -209,17 +212,16 @@ def gen_plan(streams, tier):
         meta["corruption"] = "none"
         if x < 0.5:
             torn = rnd.randrange(0, len(data) + 1)
-    frnd = streams.stream("faults")
     fault = {"chunks": None, "eio_at": None, "open": None}
     y = frnd.random()
     if y < 0.35:
         c = frnd.choice(("one", "small", "mixed"))
-        if c == "one":
+        if c == "one" and not big:
             fault["chunks"] = [1]
-        elif c == "small":
+        elif c == "small" and not big:
             fault["chunks"] = [frnd.randrange(1, 4) for _ in range(7)]
         else:
-            fault["chunks"] = [frnd.choice((1, 2, 3, 5, 8, 13, 64, 500)) for _ in range(11)]
+            fault["chunks"] = [frnd.choice((1, 2, 3, 5, 8, 13, 64, 500, 4096, 8191, 8192, 8193)) for _ in range(11)]
     if y > 0.7:
         if frnd.random() < 0.8:
             nreads = max(1, len(data) // max(1, min(fault["chunks"] or [8192])))
@@ -227,18 +229,35 @@ def gen_plan(streams, tier):
         else:
             fault["open"] = frnd.choice(("ENOENT", "EACCES", "EISDIR"))
     api = rnd.choice(("parser", "parser", "SP", "SP", "perm"))
-    return {"property": ID, "run_seed": streams.run_seed, "file": data.decode("latin-1"), "torn_at": torn,
-            "fault": fault, "api": api, "meta": meta, "intended": seq}
+    return {"file": data.decode("latin-1"), "torn_at": torn, "fault": fault, "api": api, "meta": meta,
+            "path": rnd.choice((PATH, PATH, "/sim/other.txt"))}
+
+
+def gen_plan(streams, tier):
+    rnd = streams.stream("plan")
+    frnd = streams.stream("faults")
+    nsteps = rnd.choice((1, 1, 1, 2, 2, 3, 4))
+    steps = []
+    for k in range(nsteps):
+        if steps and rnd.random() < 0.25:
+            # read a file that is already on the disk once more (nothing is written)
+            prev = rnd.choice(steps)
+            st = {"reuse": True, "path": prev["path"], "fault": {"chunks": rnd.choice((None, [1], [3, 2])), "eio_at": None, "open": None},
+                  "api": rnd.choice(("parser", "SP", "perm")), "meta": {"reuse": True}}
+        else:
+            st = gen_step(rnd, frnd, big=(k == 0 and rnd.random() < 0.04))
+        steps.append(st)
+    return {"property": ID, "run_seed": streams.run_seed, "steps": steps}
 
 
 def corpus():
     out = []
 
     def mk(name, text, **kw):
-        p = {"property": ID, "run_seed": 140 + len(out), "file": text.encode("utf-8").decode("latin-1"), "torn_at": None,
-             "fault": {"chunks": None, "eio_at": None, "open": None}, "api": "parser", "meta": {"corpus": name}, "intended": None}
-        p.update(kw)
-        out.append((name, p))
+        st = {"file": text.encode("utf-8").decode("latin-1"), "torn_at": None,
+              "fault": {"chunks": None, "eio_at": None, "open": None}, "api": "parser", "meta": {"corpus": name}, "path": PATH}
+        st.update(kw)
+        out.append((name, {"property": ID, "run_seed": 140 + len(out), "steps": [st]}))
     body = "MEEPQSDPSV EPPLSQETFS DLWKLLPENN\nVLSPLPSQAM DDLMLSPDDI\n"
     mk("fasta_grouped_numbered", ">sp|P04637\n        1 MEEPQSDPSV EPPLSQETFS 20\n       21 DLWKLLPENN 30\n\n")
     mk("plain_crlf_star", "ACDEFGHIKL\r\nMNPQRSTVWY*\r\n", fault={"chunks": [1], "eio_at": None, "open": None})
@@ -254,6 +273,20 @@ def corpus():
     mk("sp_constructor_panel", ">h\n" + body, api="SP", fault={"chunks": [3, 1, 2], "eio_at": None, "open": None})
     mk("perm_constructor", body, api="perm")
     mk("invalid_utf8", "ACDEF\n".encode().decode("latin-1") + "\xff" + "GHI\n")
+
+    def st(text, path=PATH, **kw):
+        d = {"file": text.encode("utf-8").decode("latin-1"), "torn_at": None, "fault": {"chunks": None, "eio_at": None, "open": None},
+             "api": "parser", "meta": {}, "path": path}
+        d.update(kw)
+        return d
+    out.append(("same_path_rewritten", {"property": ID, "run_seed": 160, "steps": [
+        st(">a\nACDEFGHIK\n"), st(">b\nLMNPQ\nRSTVWY\n"), {"reuse": True, "path": PATH, "fault": {"chunks": [1], "eio_at": None, "open": None}, "api": "SP", "meta": {}},
+        st("KKKK\n", path="/sim/other.txt", api="perm"), {"reuse": True, "path": PATH, "fault": {"chunks": None, "eio_at": None, "open": None}, "api": "parser", "meta": {}}]}))
+    out.append(("bad_file_then_good_file", {"property": ID, "run_seed": 161, "steps": [
+        st(">a\nACDEF\n>b\nGHIK\n"), st("ACD*EF\n"), st(">ok\nACDEF\nGHIK*\n"), st("ACDEF\n", fault={"chunks": None, "eio_at": 2, "open": None}), st("GHIKL\n")]}))
+    big = "\n".join("ACDEFGHIKLMNPQRSTVWY" * 3 for _ in range(300)) + "\n"
+    out.append(("file_larger_than_the_io_buffer", {"property": ID, "run_seed": 162, "steps": [
+        st(">big\n" + big, fault={"chunks": [8192, 1, 4096], "eio_at": None, "open": None}), st(">big\n" + big + "X\n"), st(big, torn_at=9000)]}))
     return out
 
 
@@ -322,40 +355,64 @@ PANEL = ("get_sequence", "get_length", "get_FCR", "get_NCPR", "get_mean_hydropat
 def execute(plan, ctx):
     import localcider.backend.seqfileparser as sfp
     import localcider.sequenceParameters as spmod
-    import localcider.sequencePermutants as permmod
-    from localcider.sequenceParameters import SequenceParameters
-    from localcider.sequencePermutants import SequencePermutants
     spmod.print = lambda *a, **k: None
-    rnd = ctx.streams.stream("exec")
     fs = SimFS(ctx)
     sfp.open = fs.open
-    data = plan["file"].encode("latin-1")
+    steps = plan.get("steps")
+    if steps is None:                      # single-file plan (older replay files)
+        steps = [dict(plan, path=PATH)]
+    rnd = ctx.streams.stream("exec")
+    for k, step in enumerate(steps):
+        do_step(k, step, fs, ctx, rnd, sfp)
+        if k:
+            ctx.probe("later_file_in_same_process")
+    ctx.count("fs_events", fs.nevents)
+
+
+def do_step(k, plan, fs, ctx, rnd, sfp):
+    from localcider.sequenceParameters import SequenceParameters
+    from localcider.sequencePermutants import SequencePermutants
     meta = plan.get("meta", {})
     fault = plan["fault"]
-
-    # the writer: writes the file through the simulated disk, possibly crashing mid-write
-    if plan.get("torn_at") is not None:
-        fs.faults = [{"at": 2, "kind": "crash", "torn": int(plan["torn_at"])}]
-    try:
-        fh = fs.open(PATH, "w", newline="")
-        raw = fh.buffer
-        fh.flush()
-        raw.write(data)          # one buffered write; reaches the raw device at flush/close
-        raw.flush()
-        fh.close()
-    except SimCrash:
-        ctx.probe("torn_file")
-    fs.restart()
+    PATHK = plan.get("path", PATH)
     fs.faults = []
-    durable = bytes(fs.files.get(PATH, b""))
-    ctx.log.emit("durable", n=len(durable), torn=plan.get("torn_at"))
+    fs.chunks = None
+    fs.open_faults = {}
+
+    if plan.get("reuse"):
+        ctx.probe("same_file_read_again")
+    else:
+        data = plan["file"].encode("latin-1")
+        # the writer: writes the file through the simulated disk, possibly crashing mid-write
+        if plan.get("torn_at") is not None:
+            fs.faults = [{"at": fs.nevents + 2, "kind": "crash", "torn": int(plan["torn_at"])}]
+        if PATHK in fs.files:
+            ctx.probe("path_rewritten_with_new_content")
+        try:
+            fh = fs.open(PATHK, "w", newline="")
+            raw = fh.buffer
+            fh.flush()
+            raw.write(data)          # one buffered write; reaches the raw device at flush/close
+            raw.flush()
+            fh.close()
+        except SimCrash:
+            ctx.probe("torn_file")
+        fs.restart()
+        fs.faults = []
+    durable = bytes(fs.files.get(PATHK, b""))
+    ctx.log.emit("durable", k=k, n=len(durable), torn=plan.get("torn_at"))
+    if len(durable) > 8192:
+        ctx.probe("file_larger_than_io_buffer")
     if plan.get("torn_at") is not None and b"\n" not in durable and durable[:1] == b">":
         ctx.probe("torn_inside_header")
 
     verdict, val = ref_parse(durable)
     ctx.log.emit("reference", verdict=verdict, n=len(val) if verdict == "ok" else None)
     if verdict == "ambig":
-        raise Discard("reference refuses: " + val)
+        if k == 0:
+            raise Discard("reference refuses: " + val)
+        ctx.count("ambiguous_later_step_skipped")
+        return
     ctx.probe("reference_accepts" if verdict == "ok" else "reference_rejects")
     if meta.get("crlf"):
         ctx.probe("crlf")
@@ -373,6 +430,7 @@ def execute(plan, ctx):
 
     # the read-fault plan
     fs.chunks = fault.get("chunks")
+    fs._chunk_i = 0
     if fs.chunks:
         ctx.nontrivial = True
         if fs.chunks == [1]:
@@ -380,9 +438,9 @@ def execute(plan, ctx):
         if b"\r\n" in durable:
             ctx.probe("chunk_splits_crlf")
         ctx.fault("short_reads")
-    if plan.get("torn_at") is not None:
+    if plan.get("torn_at") is not None or k > 0:
         ctx.nontrivial = True
-    path = PATH
+    path = PATHK
     if fault.get("open") == "ENOENT":
         path = "/sim/missing.fasta"
         ctx.fault("fs_open_ENOENT")
@@ -393,7 +451,7 @@ def execute(plan, ctx):
         ctx.fault("fs_open_EISDIR")
         ctx.probe("open_error")
     elif fault.get("open") == "EACCES":
-        fs.open_faults[PATH] = "EACCES"
+        fs.open_faults[PATHK] = "EACCES"
         ctx.probe("open_error")
     want_ok = verdict == "ok" and not fault.get("open")
     base_events = fs.nevents
@@ -426,11 +484,11 @@ def execute(plan, ctx):
                 ctx.probe("eio_scheduled_past_eof")
         if err is None and fs.open_handles:
             ctx.probe("handles_open_after_return")
-        ctx.log.emit("attempt", api=api, err=type(err).__name__ if err else None, fired=fired, events=fs.nevents - base_events)
+        ctx.log.emit("attempt", k=k, api=api, err=type(err).__name__ if err else None, fired=fired, events=fs.nevents - base_events)
         ctx.sig(meta.get("style"), bool(meta.get("header")), bool(meta.get("crlf")), bool(meta.get("star")), c or "none",
                 "torn" if plan.get("torn_at") is not None else "-", "open:" + str(fault.get("open")) if fault.get("open") else
                 ("eio:" + ("fired_pre_eof" if fired and not fs.saw_eof else "fired_post" if fired else "unfired") if fault.get("eio_at") else
-                 ("chunks" if fs.chunks else "clean")), api, verdict)
+                 ("chunks" if fs.chunks else "clean")), api, verdict, min(k, 2))
         return val, err, fired
 
     def residues_of(api, val):
@@ -442,7 +500,7 @@ def execute(plan, ctx):
 
     api = plan["api"]
     val, err, fired = attempt(api)
-    desc = "file of %d bytes (%s%s), read plan %s" % (len(durable), c or "valid layout", ", torn at %s" % plan.get("torn_at") if plan.get("torn_at") is not None else "", cjson(fault))
+    desc = "file #%d at %s of %d bytes (%s%s), read plan %s" % (k + 1, PATHK, len(durable), c or "layout as generated", ", torn at %s" % plan.get("torn_at") if plan.get("torn_at") is not None else "", cjson(fault))
     if err is None:
         got = residues_of(api, val)
         if verdict == "reject" or fault.get("open"):
@@ -461,7 +519,9 @@ def execute(plan, ctx):
         refobj = SequenceParameters(ref_parse(durable)[1])
         names = list(PANEL)
         N = len(ref_parse(durable)[1])
-        if N <= 120:
+        if N > 1500:
+            names = ["get_sequence", "get_length", "get_FCR", "get_countPos", "get_mean_hydropathy", "get_amino_acid_fractions"]
+        elif N <= 120:
             names += ["get_kappa", "get_delta", "get_deltaMax", "get_Omega", "get_SCD"]
         rnd.shuffle(names)
         for name in names[:8]:
@@ -471,7 +531,7 @@ def execute(plan, ctx):
                 raise Violation("file_object_differs", "panel:" + name, "%s: %s() on the object built from the file gives %r, on the object built from the string %r" % (
                     desc, name, a, b))
             ctx.probe("panel_compared")
-        if N >= 5:
+        if 5 <= N <= 1500:
             a = safe_call(val, "get_linear_NCPR", 5)
             b = safe_call(refobj, "get_linear_NCPR", 5)
             if cjson(canon(a)) != cjson(canon(b)):
@@ -479,7 +539,6 @@ def execute(plan, ctx):
         if len(val) != len(refobj) or str(val) != str(refobj):
             raise Violation("file_object_differs", "panel:len_str", "len/str differ")
     ctx.count("files")
-    ctx.count("fs_events", fs.nevents)
 
 
 def val_reason(durable):
@@ -495,37 +554,44 @@ def safe_call(o, name, *a):
 
 
 def shrink(plan, res):
-    # simplify the fault plan, then shorten the file by dropping lines / characters
-    f = plan["fault"]
-    for k, v in (("chunks", None), ("eio_at", None), ("open", None)):
-        if f.get(k) is not None:
-            c = copy.deepcopy(plan)
-            c["fault"][k] = v
+    steps = plan.get("steps")
+    if steps is None:
+        return
+    for c in list_candidates(plan, "steps"):
+        if c["steps"] and not c["steps"][0].get("reuse"):
             yield c
-    if plan.get("torn_at") is not None:
-        c = copy.deepcopy(plan)
-        c["file"] = plan["file"][:plan["torn_at"]]
-        c["torn_at"] = None
-        yield c
-    if plan.get("api") != "parser":
-        c = copy.deepcopy(plan)
-        c["api"] = "parser"
-        yield c
-    text = plan["file"]
-    lines = text.split("\n")
-    if len(lines) > 1:
+    for k, st in enumerate(steps):
+        if st.get("reuse"):
+            continue
+        f = st["fault"]
+        for key in ("chunks", "eio_at", "open"):
+            if f.get(key) is not None:
+                c = copy.deepcopy(plan)
+                c["steps"][k]["fault"][key] = None
+                yield c
+        if st.get("torn_at") is not None:
+            c = copy.deepcopy(plan)
+            c["steps"][k]["file"] = st["file"][:st["torn_at"]]
+            c["steps"][k]["torn_at"] = None
+            yield c
+        if st.get("api") != "parser":
+            c = copy.deepcopy(plan)
+            c["steps"][k]["api"] = "parser"
+            yield c
+        text = st["file"]
+        lines = text.split("\n")
         from ..minimise import chunk_removals
-        for idx in chunk_removals(len(lines)):
-            s = set(idx)
-            c = copy.deepcopy(plan)
-            c["file"] = "\n".join(l for j, l in enumerate(lines) if j not in s)
-            c["torn_at"] = None if plan.get("torn_at") is None else min(plan["torn_at"], len(c["file"]))
-            yield c
-    if len(text) <= 400:
-        from ..minimise import chunk_removals
-        for idx in chunk_removals(len(text)):
-            s = set(idx)
-            c = copy.deepcopy(plan)
-            c["file"] = "".join(ch for j, ch in enumerate(text) if j not in s)
-            c["torn_at"] = None if plan.get("torn_at") is None else min(plan["torn_at"], len(c["file"]))
-            yield c
+        if len(lines) > 1:
+            for idx in chunk_removals(len(lines)):
+                sset = set(idx)
+                c = copy.deepcopy(plan)
+                c["steps"][k]["file"] = "\n".join(l for j, l in enumerate(lines) if j not in sset)
+                c["steps"][k]["torn_at"] = None if st.get("torn_at") is None else min(st["torn_at"], len(c["steps"][k]["file"]))
+                yield c
+        if len(text) <= 400:
+            for idx in chunk_removals(len(text)):
+                sset = set(idx)
+                c = copy.deepcopy(plan)
+                c["steps"][k]["file"] = "".join(ch for j, ch in enumerate(text) if j not in sset)
+                c["steps"][k]["torn_at"] = None if st.get("torn_at") is None else min(st["torn_at"], len(c["steps"][k]["file"]))
+                yield c
